@@ -377,6 +377,20 @@ def all_tls_cases(ctx, scale=1):
     t13 = [c for (t, v), cs in classes.items() if v == "tls13" for c in cs]
     for code in t13:
         cases.append(tls_case(rng, "tls13", code, "no-handshake"))
+    # a second handshake that repeats the ClientHello random (and so the key-log line) of the one before it, with a fresh ServerHello
+    # random: the key block depends on BOTH randoms (own generator: the draws above and below keep their streams)
+    import random as _random
+    r2 = _random.Random(int(cases[0]["cr"][:12], 16) if cases else 0)
+    for (toks, v), codes in classes.items():
+        if v != "tls13":
+            a = tls_case(r2, v, r2.choice(codes), r2.choice(("normal", "normal", "rsa")))
+            cases += [a, dict(a, sr=rb(r2, 32).hex())]
+        else:
+            # a TLS 1.3 key log that also holds the 0-RTT secret of the connection, AFTER the application secrets (merged logs)
+            a = tls_case(r2, v, r2.choice(codes))
+            n13 = len(bytes.fromhex(a["keylog"][0][2])) if a["keylog"] else 32
+            a["keylog"] = [k for k in a["keylog"]] + [["CLIENT_EARLY_TRAFFIC_SECRET", a["cr"], rb(r2, n13).hex()]]
+            cases.append(a)
     run_tls_cases(ctx, impl, cases, "tls.installed")
     # separate stream: invalid suite/version pairs, odd master-secret lengths, missing / duplicated secrets
     odd = []
